@@ -246,6 +246,10 @@ class Check:
         self.corr = {}
         self.checker_cmd = ''
         os.makedirs(REPLAYS, exist_ok=True); os.makedirs(EVIDENCE, exist_ok=True)
+        for f in os.listdir(REPLAYS):          # replays of earlier runs of this property
+            if f.startswith(pid + '_'):
+                try: os.remove(os.path.join(REPLAYS, f))
+                except OSError: pass
         kf = os.path.join(ROOT, 'known_findings.jsonl')
         self.known_findings = []
         if os.path.exists(kf):
